@@ -109,7 +109,9 @@ func FromSubs(s *astisub.Subtitles) (d vtt.Doc, odd string) {
 // library's own readers do (attribute holders always allocated); variant 1 leaves a cue's / region's
 // InlineStyle nil when it has nothing to say (what the SubRip/TTML readers and user code produce); variant 2 puts
 // the cue settings and region attributes on the Style the cue / region refers to and leaves the InlineStyle empty
-// (the writer documents a fall-back to the referenced style for every one of them).
+// (the writer documents a fall-back to the referenced style for every one of them); variant 3 does so only for cues
+// and regions that have something to say and leaves the others with an allocated but empty InlineStyle and no Style (what a list read from
+// TTML looks like: a fall-back must not leak from one cue into the next).
 func ToSubs(d vtt.Doc, variant int) *astisub.Subtitles {
 	s := astisub.NewSubtitles()
 	if d.TSMap != nil {
@@ -124,7 +126,7 @@ func ToSubs(d vtt.Doc, variant int) *astisub.Subtitles {
 	}
 	for _, r := range d.Regions {
 		rg := &astisub.Region{ID: r.ID}
-		if variant == 2 {
+		if variant == 2 || variant == 3 && r != (vtt.Region{ID: r.ID}) {
 			rg.InlineStyle = &astisub.StyleAttributes{}
 			rg.Style = &astisub.Style{ID: "rs-" + r.ID, InlineStyle: &astisub.StyleAttributes{WebVTTWidth: r.Width, WebVTTLines: r.Lines, WebVTTRegionAnchor: r.RegionAnchor, WebVTTViewportAnchor: r.ViewportAnchor, WebVTTScroll: r.Scroll}}
 		} else if variant == 0 || r != (vtt.Region{ID: r.ID}) {
@@ -135,10 +137,10 @@ func ToSubs(d vtt.Doc, variant int) *astisub.Subtitles {
 	for _, c := range d.Cues {
 		it := &astisub.Item{StartAt: time.Duration(c.Start) * time.Millisecond, EndAt: time.Duration(c.End) * time.Millisecond, Index: c.ID}
 		it.Comments = append(it.Comments, c.Comments...)
-		if variant == 2 {
+		if variant == 2 || variant == 3 && c.Settings != (vtt.Settings{}) {
 			it.InlineStyle = &astisub.StyleAttributes{}
 			it.Style = &astisub.Style{ID: "cs", InlineStyle: &astisub.StyleAttributes{WebVTTAlign: c.Settings.Align, WebVTTLine: c.Settings.Line, WebVTTPosition: c.Settings.Position, WebVTTSize: c.Settings.Size, WebVTTVertical: c.Settings.Vertical}}
-		} else if variant == 0 || c.Settings != (vtt.Settings{}) {
+		} else if variant == 0 || variant == 3 || c.Settings != (vtt.Settings{}) {
 			it.InlineStyle = &astisub.StyleAttributes{WebVTTAlign: c.Settings.Align, WebVTTLine: c.Settings.Line, WebVTTPosition: c.Settings.Position, WebVTTSize: c.Settings.Size, WebVTTVertical: c.Settings.Vertical}
 		}
 		if c.Region != "" {
